@@ -136,3 +136,14 @@ def font_record(case):
             ret["vorg"] = {"default": vg.defaultVertOriginY, "records": [[k, v] for k, v in sorted(vg.VOriginRecords.items())]}
     rec["ret"] = ret
     return rec
+
+
+def isoadobe_prefix_failure(rec):
+    """Known finding F-C04-1: CFF1 + cffsubr and a glyph order that is a prefix of the ISOAdobe charset."""
+    from fontTools.cffLib import cffISOAdobeStrings
+
+    if rec.get("flavor") != "cff" or not rec.get("ret", {}).get("err", "").startswith("Save:"):
+        return False
+    names = [n for n in rec["names"] if n != ".notdef"]
+    order = [".notdef"] + sorted(names)
+    return order == list(cffISOAdobeStrings[: len(order)])
